@@ -85,13 +85,41 @@ def pendName (s : State) (t : Tid) : String :=
 
 def finalLine (s : State) (execs : Nat) : String :=
   let live := (List.range s.nextCall).filter (fun c => (s.calls c).isSome) |>.length
-  match s.pool with
+  match (if s.tp then s.pool else none) with
   | some p =>
     let b := fun (x : Bool) => if x then 1 else 0
     s!"F enq={p.enq}/{b (s.sigs 0).signaled} deq={p.deq}/{b (s.sigs 1).signaled} q={p.ring.head}/{p.ring.tail} pushed={p.pushed} processed={p.processed} threads={p.threadCount} execs={execs} live={live}"
   | none => s!"F nopool execs={execs} live={live}"
 
 def totalExecs (s : State) : Nat := (List.range s.nextCall).foldl (fun acc c => acc + s.execCount c) 0
+
+/-- re-tabulate the function-valued fields (the model updates them by wrapping closures; long replays would
+    otherwise pay a look-up cost linear in the number of steps so far).  Extensionally the identity. -/
+def tabArr {β : Type} (arr : Array β) (dflt : β) (i : Nat) : β := if h : i < arr.size then arr[i] else dflt
+
+def mkArr {β : Type} (n : Nat) (f : Nat → β) : Array β := ((List.range n).map f).toArray
+
+def compact (s : State) : State :=
+  let nc := s.nextCall
+  let aT := mkArr s.nthreads s.threads
+  let aS := mkArr 18 s.sigs
+  let aF := mkArr 16 s.futs
+  let aC := mkArr nc s.calls
+  let aE := mkArr nc s.execCount
+  let aA := mkArr nc s.execArgs
+  let aD := mkArr nc s.freeCount
+  let aV := mkArr nc s.everCalls
+  let aK := mkArr nc s.completed
+  let pool := match s.pool with
+    | some p =>
+      let aR := mkArr p.ring.cap p.ring.slots
+      let d0 := p.ring.slots 0
+      some { p with ring := { p.ring with slots := tabArr aR d0 } }
+    | none => none
+  { s with
+    threads := tabArr aT none, sigs := tabArr aS {}, futs := tabArr aF {}, calls := tabArr aC none,
+    execCount := tabArr aE 0, execArgs := tabArr aA none, freeCount := tabArr aD 0, everCalls := tabArr aV none,
+    completed := tabArr aK false, pool := pool }
 
 def faultLines (s : State) : List String :=
   match s.fault with
@@ -112,7 +140,8 @@ def stepLine (d : DState) (ws : List String) : DState × String :=
       let en := enabledList s
       let hdr := s!"S {t} en=" ++ ",".intercalate (en.map toString)
       match macroStep s t with
-      | some (s', o) => ({ st := some s', steps := d.steps + 1 }, "\n".intercalate (hdr :: o ++ faultLines s'))
+      | some (s', o) =>
+        ({ st := some (if (d.steps + 1) % 32 = 0 then compact s' else s'), steps := d.steps + 1 }, "\n".intercalate (hdr :: o ++ faultLines s'))
       | none => (d, hdr ++ s!"\nMODEL-DISABLED {t}")
     | _, _ => (d, "bad-op")
   | ["V"] =>
